@@ -15,6 +15,7 @@ use super::*;
 // constants AnimFile::write_modern / AnimSection::parse compute offsets with
 #[kani::proof]
 #[kani::stub(std::fmt::format, vio::fmt_stub)]
+#[kani::stub(std::string::String::from_utf8_lossy, segio::lossy_stub)]
 #[kani::unwind(8)]
 fn c13d_anim_header_record() {
     let mut b: [u8; 24] = kani::any();
@@ -32,6 +33,7 @@ fn c13d_anim_header_record() {
 }
 #[kani::proof]
 #[kani::stub(std::fmt::format, vio::fmt_stub)]
+#[kani::stub(std::string::String::from_utf8_lossy, segio::lossy_stub)]
 #[kani::unwind(8)]
 fn c13d_anim_entry_record() {
     let b: [u8; 16] = kani::any();
@@ -48,6 +50,7 @@ fn c13d_anim_entry_record() {
 }
 #[kani::proof]
 #[kani::stub(std::fmt::format, vio::fmt_stub)]
+#[kani::stub(std::string::String::from_utf8_lossy, segio::lossy_stub)]
 #[kani::unwind(8)]
 fn c13d_anim_section_header_record() {
     let mut b: [u8; 20] = kani::any();
@@ -91,6 +94,7 @@ fn v3eq(a: &C3Vector, b: &C3Vector) -> bool { a.x.to_bits() == b.x.to_bits() && 
 /// AnimSection::write -> AnimSection::parse(size = section header + one offset per bone): content equal, second write identical
 #[kani::proof]
 #[kani::stub(std::fmt::format, vio::fmt_stub)]
+#[kani::stub(std::string::String::from_utf8_lossy, segio::lossy_stub)]
 #[kani::unwind(5)]
 fn c13d_anim_section_roundtrip() {
     let s = one_bone_section(true, true, true);
@@ -148,6 +152,7 @@ fn modern_file(section: AnimSection) -> AnimFile {
 /// entry table points at the section, entry.size == section length, parse returns the same content
 #[kani::proof]
 #[kani::stub(std::fmt::format, vio::fmt_stub)]
+#[kani::stub(std::string::String::from_utf8_lossy, segio::lossy_stub)]
 #[kani::unwind(5)]
 fn c13d_anim_file_roundtrip_empty_bone() {
     let f = modern_file(one_bone_section(false, false, false));
@@ -183,6 +188,7 @@ fn c13d_anim_file_roundtrip_empty_bone() {
 /// length in the entry, AnimSection::parse derives the bone count from that length
 #[kani::proof]
 #[kani::stub(std::fmt::format, vio::fmt_stub)]
+#[kani::stub(std::string::String::from_utf8_lossy, segio::lossy_stub)]
 #[kani::unwind(20)]
 fn c13d_anim_file_bone_data_witness() {
     let mut ts = Vec::with_capacity(1); ts.push(10u32);
@@ -207,6 +213,7 @@ fn c13d_anim_file_bone_data_witness() {
 /// (parse_legacy returns a placeholder section with id 1, start 0, end 0 for every input)
 #[kani::proof]
 #[kani::stub(std::fmt::format, vio::fmt_stub)]
+#[kani::stub(std::string::String::from_utf8_lossy, segio::lossy_stub)]
 #[kani::unwind(30)]
 fn c13d_anim_legacy_witness() {
     let section = AnimSection { header: AnimSectionHeader { magic: *b"AFID", id: 77, start: 11, end: 22 }, bone_animations: Vec::new() };
@@ -226,6 +233,7 @@ fn c13d_anim_legacy_witness() {
 
 #[kani::proof]
 #[kani::stub(std::fmt::format, vio::fmt_stub)]
+#[kani::stub(std::string::String::from_utf8_lossy, segio::lossy_stub)]
 #[kani::unwind(8)]
 fn c13d_anim_canary() {
     let b: [u8; 16] = kani::any();
